@@ -219,11 +219,16 @@ FOLLOW = ['Feature: f\n  Scenario: s\n', 'Fonctionnalité: f\n  Scénario: s\n']
 
 
 @worker
-def job_headers(first, maxlen):
+def job_headers(first, second, maxlen):
+    """second = None: the strings of length 1 and 2 starting with HSYM[first]; else all strings of length 3..maxlen starting with the two symbols."""
     acc = Acc()
     text = None
-    for n in range(maxlen):
-        for w in itertools.product(HSYM, repeat=n):
+    if second is None:
+        words = [()] + [(x,) for x in HSYM]
+    else:
+        words = ((HSYM[second],) + w for n in range(1, maxlen - 1) for w in itertools.product(HSYM, repeat=n))
+    if True:
+        for w in words:
             s = HSYM[first] + ''.join(w)
             for fol in FOLLOW:
                 for ind in ('', '  '):
@@ -309,8 +314,9 @@ def run(ctx):
     from .c10 import shared_spellings
     sp = shared_spellings()
     ctx.level('dialect pairs sharing a keyword spelling (%d)' % len(sp), [job_shared.job(sp[i:i + 40]) for i in range(0, len(sp), 40)])
-    n = ctx.pick(4, 5)
-    ctx.level('header strings <= %d symbols' % n, [job_headers.job(i, n) for i in range(len(HSYM))])
+    n = ctx.pick(4, 6)
+    ctx.level('header strings <= %d symbols' % n, [job_headers.job(i, None, n) for i in range(len(HSYM))] +
+              [job_headers.job(i, j, n) for i in range(len(HSYM)) for j in range(len(HSYM))])
     ctx.level('header position: prefixes <= 4 lines', [job_positions.job(i) for i in range(len(PLINES))] )
     # empty prefix
     acc = Acc()
